@@ -37,6 +37,7 @@ CONSTANTS PatSet,       \* set of pattern names to explore
           OverwritePsk, \* BOOLEAN: also explore set_psk on a slot that is already filled (C08, C12)
           TamperBudget, \* number of in-transit alterations per behaviour
           Mismatches,   \* subset of {"none","prologue","psk","rs_i","rs_r","rs_i_bit","rs_r_bit"}: one context item differs (C08)
+          ExtraRs,      \* subset of BOOLEAN: also hand the peer's static key to a party the pattern only TRANSMITS it to (C17)
           ExtraPsks,    \* subset of BOOLEAN: also supply keys in psk slots the pattern does not use (must change nothing: C12)
           OddNames,     \* BOOLEAN: name the protocol with a non-canonical spelling of its psk numerals (psk03 for psk3)
           Emit          \* BOOLEAN: print scenarios
@@ -102,8 +103,10 @@ TrafficFor(p) ==
 BIGBUF == 70000
 
 (* with `extra`, every slot the pattern does not use is filled with an unrelated key *)
-CfgFor(id, role, pp, fixed, late, mm, ow, extra) ==
-  LET c == CfgFor0(id, role, pp, fixed, late, mm, ow) IN
+CfgFor(id, role, pp, fixed, late, mm, ow, extra, xrs) ==
+  LET c0 == CfgFor0(id, role, pp, fixed, late, mm, ow)
+      c == IF xrs /\ c0.rs = None /\ LearnsRemoteStatic(pp.pat, role)
+           THEN [c0 EXCEPT !.rs = Pub(IF role = "i" THEN sR ELSE sI)] ELSE c0 IN
   IF extra THEN [c EXCEPT !.psk = [n \in 0..4 |-> IF n \in pp.psks THEN c.psk[n] ELSE Atom("pskX", 32)]] ELSE c
 
 Ows(p, ps) == IF OverwritePsk THEN {NoOw} \cup { <<id, n, k>> : id \in {"I", "R"}, n \in ps, k \in {"fix", "break"} }
@@ -112,13 +115,13 @@ Lates(p, ps) == IF LatePsk THEN {<<"-", 0>>} \cup { <<id, n>> : id \in {"I", "R"
 
 Init ==
   /\ \E p \in PatSet, pl \in PubLens, ip \in InitPads, prof \in Profiles, v \in Variants, fx \in FixedEs, bm \in BufModes :
-       \E ps \in PskSets(p) : \E late \in Lates(p, ps) : \E mm \in Mismatches : \E ow \in Ows(p, ps) : \E ex \in ExtraPsks :
+       \E ps \in PskSets(p) : \E late \in Lates(p, ps) : \E mm \in Mismatches : \E ow \in Ows(p, ps) : \E ex \in ExtraPsks : \E xr \in ExtraRs :
          /\ (ow # NoOw => late = <<"-", 0>> /\ mm = "none")
          /\ (mm = "psk" => ps # {})
          /\ (mm \in {"rs_i", "rs_i_bit"} => NeedsRemoteStatic(p, "i"))
          /\ (mm \in {"rs_r", "rs_r_bit"} => NeedsRemoteStatic(p, "r"))
          /\ prm = [pp |-> PP(p, ps, pl, ip), prof |-> prof, variant |-> v, fixed |-> fx, late |-> late, bufs |-> bm,
-                   mm |-> mm, ow |-> ow, extra |-> ex]
+                   mm |-> mm, ow |-> ow, extra |-> ex, xrs |-> xr]
   /\ ep = [id \in {"I", "R"} |-> Absent]
   /\ hist = <<>>
   /\ aeadLog = {}
@@ -192,9 +195,9 @@ GenuinePayload(k) == Lit(PayId(k), PayLen(k, St(Writer(k))))
 Genuine ==
   /\ ~Done
   /\ UNCHANGED <<prm, budget>>
-  /\ CASE pc = 0 -> /\ Build("I", "i", prm.pp, CfgFor("I", "i", prm.pp, prm.fixed, prm.late, prm.mm, prm.ow, prm.extra))
+  /\ CASE pc = 0 -> /\ Build("I", "i", prm.pp, CfgFor("I", "i", prm.pp, prm.fixed, prm.late, prm.mm, prm.ow, prm.extra, prm.xrs))
                     /\ pc' = pc + 1 /\ UNCHANGED <<wire, sent, status>>
-       [] pc = 1 -> /\ Build("R", "r", prm.pp, CfgFor("R", "r", prm.pp, prm.fixed, prm.late, prm.mm, prm.ow, prm.extra))
+       [] pc = 1 -> /\ Build("R", "r", prm.pp, CfgFor("R", "r", prm.pp, prm.fixed, prm.late, prm.mm, prm.ow, prm.extra, prm.xrs))
                     /\ pc' = pc + 1 /\ UNCHANGED <<wire, sent, status>>
        [] InHandshake ->
             LET k == HsMsg IN
@@ -288,7 +291,9 @@ FaultWrite ==            \* at a write step: the writer's call fails
 BadMsgs(msg) ==
      (IF "ralt" \in FaultKinds THEN { AltField(msg, j, kd) : j \in 1..Len(msg), kd \in AltKinds } ELSE {})
   \cup (IF "rtrunc" \in FaultKinds THEN { TruncAt(msg, l, PL) : l \in TruncLens(msg, PL) } ELSE {})
-  \cup (IF "rext" \in FaultKinds THEN { Extend(msg, 1), Extend(msg, TAGLEN), Extend(msg, MAXMSG) } ELSE {})
+  \cup (IF "rext" \in FaultKinds THEN { Extend(msg, 1), Extend(msg, TAGLEN), Extend(msg, MAXMSG),
+                                          Extend(msg, MAXMSG + 1 - SumLen(msg, PL)) }     \* exactly one byte over the limit
+        ELSE {})
   \cup (IF "rstale" \in FaultKinds THEN { sent[i] : i \in 1..(Len(sent) - 1) } ELSE {})
 
 (* payload-buffer sizes offered with a bad message: far larger; with "rleak" also exactly the genuine
